@@ -508,6 +508,7 @@ func init() {
 				hj("C18.seq2", "H_C18_seq2", "two records of symbolic kinds decode to the same sequence"),
 			}
 			js[5].JSONLens = []int{0, 1, 2, 300}
+			js[0].MaxSymAlloc = 8
 			if tier == "thorough" {
 				js = append(js, hj("C18.seq3", "H_C18_seq3", "three records of symbolic kinds decode to the same sequence"))
 			}
